@@ -684,9 +684,9 @@ def gen_c05(tier, rng):
 
 
 PROPS.update({
-    "C03": dict(modules=["C03", "C03Quiet"], theorems=['c03_quiet_spec', 'c03_quiet_linked', 'c03_marker_invariant', 'c03_pcSafe_spec', 'c03_marker_acked_when_quiet', 'c03_crash_prefix_quiet', 'c03_acked_writes_survive_quiet', 'c03_linked_files', 'c03_ghost_store_spec', 'c03_recovered_is_linked_journal_prefix', 'c03_crash_prefix', 'c03_acked_writes_survive'] + ['c03_cutOf_spec', 'c03_crashImage_files', 'c03_crash_images_exist', 'c03_parsesToPrefix_spec', 'c03_file_is_record_prefix', 'c03_parsesLo_spec', 'c03_witnesses_spec', 'c03_recovered_is_journal_prefix_partial', "c03_recovered_is_journal_prefix_partial'", 'c03_recovered_sys_open', 'c03_removals_needed', 'c03_expansion_reaches_same', 'c03_prefix_is_a_history_prefix_partial', 'c03_marker_needed', 'c03_marker_zero_of_no_drop', 'c03_acked_is_durable', 'c03_ack_only_raises', 'c03_positive_callback_acks', 'c03_flush_sends_journal_end', 'c03_acked_flush', 'c03_crash_prefix_partial', 'c03_crash_prefix_no_drop', 'c03_acked_writes_survive_partial', 'c03_no_drop_facts', 'c03_acked_writes_survive_no_drop'], gen=gen_c03, project=proj_recovery, oracle=oracle_c03, nontrivial=lambda s: len(s) > 6,
+    "C03": dict(modules=["C03", "C03Quiet", "C06Normal", "AnyHistory"], theorems=['c03_crash_prefix_any_history_partial', 'c03_acked_is_durable_any_history_partial', 'c03_acked_writes_survive_any_history_partial', 'c03_quiet_spec', 'c03_quiet_linked', 'c03_marker_invariant', 'c03_pcSafe_spec', 'c03_marker_acked_when_quiet', 'c03_crash_prefix_quiet', 'c03_acked_writes_survive_quiet', 'c03_linked_files', 'c03_ghost_store_spec', 'c03_recovered_is_linked_journal_prefix', 'c03_crash_prefix', 'c03_acked_writes_survive'] + ['c03_cutOf_spec', 'c03_crashImage_files', 'c03_crash_images_exist', 'c03_parsesToPrefix_spec', 'c03_file_is_record_prefix', 'c03_parsesLo_spec', 'c03_witnesses_spec', 'c03_recovered_is_journal_prefix_partial', "c03_recovered_is_journal_prefix_partial'", 'c03_recovered_sys_open', 'c03_removals_needed', 'c03_expansion_reaches_same', 'c03_prefix_is_a_history_prefix_partial', 'c03_marker_needed', 'c03_marker_zero_of_no_drop', 'c03_acked_is_durable', 'c03_ack_only_raises', 'c03_positive_callback_acks', 'c03_flush_sends_journal_end', 'c03_acked_flush', 'c03_crash_prefix_partial', 'c03_crash_prefix_no_drop', 'c03_acked_writes_survive_partial', 'c03_no_drop_facts', 'c03_acked_writes_survive_no_drop'], gen=gen_c03, project=proj_recovery, oracle=oracle_c03, nontrivial=lambda s: len(s) > 6,
                 explanation="crash safety: crash model (CrashImage), S1 file-is-record-prefix, S2 recovered = replay of a journal prefix, S3 journal prefixes mirror history prefixes beyond the drop marker, S4 acknowledged position is durable; combined end-to-end theorems c03_crash_prefix / c03_acked_writes_survive without side hypotheses (ghost store of dropped-but-linked chunks)", assumptions=OS_ASSUMPTIONS),
-    "C05": dict(modules=['C05', 'C05Crash'], theorems=['c05_open_no_panic_partial', "c05_open_no_panic_partial'", 'c05_fsSmall_of_all', 'c05_reuse_has_last', 'c05_open_panics_on_max_index', 'c05_headless_newest_is_recreated', 'c05_headless_only_file', 'openLoop_no_panic', 'openStore_no_panic', 'replay_small', 'openStore_fresh', 'Loads.openLoop_append', 'c05_noTornPredecessor_spec', 'c05_noTornPredecessor_records', 'c05_open_succeeds_partial', 'c05_sys_open_succeeds_partial', 'c05_rotation_gap_witness', 'c05_no_torn_predecessor_when_synced', 'c05_open_succeeds_when_acked', 'c05_recovered_store_is_consistent', 'c05_recovered_payloads', 'c05_recovered_accepts_history', 'c05_flush_is_acknowledged', 'c05_recovered_restart_is_identity', 'c05_recovered_cycles', 'c05_open_effect_spec', 'c05_recovery_crash_is_recoverable', 'c05_crashInv_spec', 'c05_crashInv_fresh', 'c05_crashInv_history', 'c05_crashInv_retarget', 'c05_crashInv_recovered', 'c05_crashInv_crash_prefix', 'c05_crashInv_no_torn_when_acked', 'c05_crashInv_recovery_crash', 'c05_two_crashes', 'c05_recovery_never_panics', 'c05_crashInv_never_panics'], gen=gen_c05, project=proj_recovery, oracle=oracle_c05, nontrivial=lambda s: len(s) > 6,
+    "C05": dict(modules=['C05', 'C05Crash', 'AnyHistory'], theorems=['c05_recovery_never_panics_any_history_partial', 'c05_open_succeeds_any_history_partial', 'c05_sys_open_succeeds_any_history_partial', 'c05_recovered_store_is_consistent_any_history_partial', 'c05_open_no_panic_partial', "c05_open_no_panic_partial'", 'c05_fsSmall_of_all', 'c05_reuse_has_last', 'c05_open_panics_on_max_index', 'c05_headless_newest_is_recreated', 'c05_headless_only_file', 'openLoop_no_panic', 'openStore_no_panic', 'replay_small', 'openStore_fresh', 'Loads.openLoop_append', 'c05_noTornPredecessor_spec', 'c05_noTornPredecessor_records', 'c05_open_succeeds_partial', 'c05_sys_open_succeeds_partial', 'c05_rotation_gap_witness', 'c05_no_torn_predecessor_when_synced', 'c05_open_succeeds_when_acked', 'c05_recovered_store_is_consistent', 'c05_recovered_payloads', 'c05_recovered_accepts_history', 'c05_flush_is_acknowledged', 'c05_recovered_restart_is_identity', 'c05_recovered_cycles', 'c05_open_effect_spec', 'c05_recovery_crash_is_recoverable', 'c05_crashInv_spec', 'c05_crashInv_fresh', 'c05_crashInv_history', 'c05_crashInv_retarget', 'c05_crashInv_recovered', 'c05_crashInv_crash_prefix', 'c05_crashInv_no_torn_when_acked', 'c05_crashInv_recovery_crash', 'c05_two_crashes', 'c05_recovery_never_panics', 'c05_crashInv_never_panics'], gen=gen_c05, project=proj_recovery, oracle=oracle_c05, nontrivial=lambda s: len(s) > 6,
                 explanation="crash recoverability", assumptions=OS_ASSUMPTIONS),
     "C10": dict(theorems=['c10_encRecord_length_pos', 'parse_encAll', 'parse_cut', 'parse_cut_at', 'parse_zero_tail', 'c10_crc32_zeros_ne_zero', 'c10_clean_open', 'c10_cut_truncate', 'c10_zero_truncate', 'c10_open_truncates_and_creates', "c10_open_single_chunk'", 'c10_open_single_chunk', 'parseChunk_encAll_append', 'parseChunk_canon', 'parseLoop_fuel', 'decRecord_zeros_eof', 'decRecord_zeros_invalid', 'openChunk_of_parse'],
                 gen=scripts_c10, project=proj_recovery, oracle=oracle_c10, nontrivial=lambda s: len(s) > 6,
